@@ -19,6 +19,7 @@ POOLS = {
     "date": ("'{}'::date", [datetime.date(2020, 1, 2), datetime.date(1969, 12, 31), datetime.date(2024, 2, 29),
                             datetime.date(1, 1, 1), datetime.date(9999, 12, 31)]),
     "bool": ("{}", [True, False]),
+    "cnt": ("{}", [0, 1, 2, 3, 4, 5]),
 }
 NAME_POOL = ["A", "B", "a b", "C", "A", "b"]
 
@@ -65,8 +66,8 @@ def enc_case(dictc, ops):
     for o in ops:
         k = o[0]
         if k == "exec":
-            _, types, names, rows = o
-            out.append([0, [enc_row(r) for r in rows], S(names)])
+            _, types, names, rows = o[:4]
+            out.append([0, [enc_row(r) for r in rows], S(names), core.opt(o[4] if len(o) > 4 else None)])
         elif k == "one":
             out.append([1])
         elif k == "many":
@@ -99,8 +100,8 @@ def run_impl(conn, dictc, ops):
         k = o[0]
         try:
             if k == "exec":
-                _, types, names, rows = o
-                cur.execute(render_select(types, names, rows))
+                _, types, names, rows = o[:4]
+                cur.execute(o[5] if len(o) > 5 else render_select(types, names, rows))
                 obs.append([4])
             elif k == "one":
                 r = cur.fetchone()
@@ -138,6 +139,7 @@ def oracle(dictc, ops, obs):
         k = o[0]
         if k == "exec":
             rows, names, types = o[3], o[2], o[1]
+            affected = o[4] if len(o) > 4 else None
             delivered, req = [], 0
             continue
         if k == "asz":
@@ -150,8 +152,9 @@ def oracle(dictc, ops, obs):
                 return f"fetch_pandas_all before any execute gave {ob}"
             continue
         if k in ("rowcount", "pandas"):
-            if ob != [5, [len(rows)]]:
-                return f"{k} reports {ob[1:]}, result has {len(rows)} rows"
+            want_n = affected if (k == "rowcount" and affected is not None) else len(rows)
+            if ob != [5, [want_n]]:
+                return f"{k} reports {ob[1:]}, expected {want_n}"
             continue
         if ob[0] == 3:
             return f"{k} raised {ob}"
@@ -196,6 +199,18 @@ def gen_case(rng):
         rows = [[rng.choice([None] + list(range(len(POOLS[t][1])))) for t in types] for _ in range(nrows)]
         return ("exec", types, names, rows)
 
+    def dml():
+        k = rng.choice([0, 0, 1, 2, 5])
+        if rng.random() < 0.5:
+            return ("exec", ["cnt", "cnt"], ["number of rows updated", "number of multi-joined rows updated"], [[k, 0]], k,
+                    f"UPDATE c05_t SET i = i WHERE i < {k}")
+        return ("exec", ["cnt"], ["number of rows inserted"], [[k]], k, f"INSERT INTO c05_u SELECT i FROM c05_t WHERE i < {k}")
+
+    plain_shape = shape
+
+    def shape():  # noqa: F811
+        return dml() if rng.random() < 0.2 else plain_shape()
+
     ops = []
     if rng.random() < 0.1:
         ops.append(rng.choice([("one",), ("many", None), ("all",), ("pandas",), ("rowcount",)]))
@@ -224,6 +239,9 @@ def main():
     ck.prepare()
     ck.trusted.append("modelled, not verified: pyarrow Table.slice / to_pylist, DuckDB's evaluation of the VALUES query that produces the rows")
     fs, conn = fsutil.fresh()
+    conn.cursor().execute("create table c05_t (i int)")
+    conn.cursor().execute("insert into c05_t values (0),(1),(2),(3),(4)")
+    conn.cursor().execute("create table c05_u (i int)")
     cases = []
     # exhaustive small scope
     alpha = [("one",), ("many", 1), ("many", 2), ("many", None), ("all",)]
@@ -238,6 +256,10 @@ def main():
         cases.append(gen_case(ck.rng))
     # corpus: the F2 witness
     cases.insert(0, (False, [("exec", ["int", "int"], ["A", "A"], [[1, 2]]), ("all",)]))
+    for d in (False, True):
+        for k in (0, 2):
+            cases.insert(0, (d, [("exec", ["cnt"], ["number of rows inserted"], [[k]], k, f"INSERT INTO c05_u SELECT i FROM c05_t WHERE i < {k}"),
+                                 ("rowcount",), ("all",), ("one",), ("rowcount",)]))
     ck.cov["exhaustive_space"] = f"{n_exh} = all sequences of length <= {maxlen} (quick: <= {maxlen - 1} for 0/1/4 rows) over fetchone/fetchmany(1|2|None)/fetchall on results of 0..4 rows"
     enc = [enc_case(d, ops) for d, ops in cases]
     obs = [run_impl(conn, d, ops) for d, ops in cases]
